@@ -102,7 +102,12 @@ def create_linked_view(project, prefix=None, job_ids=None, path=None):
     # Before re-raising the exception, print a helpful message for the expected error.
     try:
         _check_directory_structure_validity(links.keys())
-        _update_view(prefix, links)
+        # Symbolic links in the prefix or in the job paths: the relative link targets are
+        # computed and compared in terms of the physical locations.
+        _update_view(
+            os.path.realpath(prefix),
+            {path: os.path.realpath(target) for path, target in links.items()},
+        )
     except OSError as err:
         if sys.platform == "win32" and err.winerror == 1314:
             print(
